@@ -129,7 +129,7 @@ namespace
                     runtime.__logmsg(logmessage::runtime::ArraySizeChanged(frame.diag_info_from_position(), m_size, m_array->size()));
                     m_size = m_array->size();
                 }
-                if (++m_index == m_size)
+                if (++m_index >= m_size) // the code may have shortened the array
                 {
                     runtime.context_active().push_value(m_count);
                     return result::ok;
@@ -548,7 +548,7 @@ namespace
                     runtime.__logmsg(logmessage::runtime::ArraySizeChanged(frame.diag_info_from_position(), m_size, m_array->size()));
                     m_size = m_array->size();
                 }
-                if (++m_index == m_size)
+                if (++m_index >= m_size) // the code may have shortened the array
                 {
                     return result::ok;
                 }
@@ -707,7 +707,7 @@ namespace
                     runtime.__logmsg(logmessage::runtime::ArraySizeChanged(frame.diag_info_from_position(), m_size, m_array->size()));
                     m_size = m_array->size();
                 }
-                if (++m_index == m_size)
+                if (++m_index >= m_size) // the code may have shortened the array
                 {
                     runtime.context_active().push_value(m_out);
                     return result::ok;
@@ -925,7 +925,7 @@ namespace
                     runtime.__logmsg(logmessage::runtime::ArraySizeChanged(frame.diag_info_from_position(), m_size, m_array->size()));
                     m_size = m_array->size();
                 }
-                if (++m_index == m_size)
+                if (++m_index >= m_size) // the code may have shortened the array
                 {
                     runtime.context_active().push_value(-1);
                     return result::ok;
@@ -1157,7 +1157,7 @@ namespace
                     runtime.__logmsg(logmessage::runtime::ArraySizeChanged(frame.diag_info_from_position(), m_size, m_array->size()));
                     m_size = m_array->size();
                 }
-                if (++m_index == m_size)
+                if (++m_index >= m_size) // the code may have shortened the array
                 {
                     runtime.context_active().push_value(m_out);
                     return result::ok;
